@@ -42,9 +42,8 @@ impl From<Limb> for BoxedUint {
 
 impl From<&[Limb]> for BoxedUint {
     fn from(limbs: &[Limb]) -> BoxedUint {
-        Self {
-            limbs: limbs.into(),
-        }
+        // Goes through `From<Vec<Limb>>`, which never produces a zero-limb value.
+        limbs.to_vec().into()
     }
 }
 
